@@ -333,3 +333,14 @@ Proof.
         + inversion Hc; subst. cbn [length]. lia. }
     apply G in P. rewrite map_length in P. lia.
 Qed.
+
+(* outside brackets the admissible window is the single position first_dead *)
+Lemma parse_error_position_exact (s : text) (e : nat) :
+  (forall c, In c s -> c <> 91%N) -> parse s = PSyntax e -> e = first_dead URI_reference s.
+Proof.
+  intros Hnb H. destruct (parse_error_position s e H) as [Hok _].
+  unfold errpos_ok in Hok. rewrite (err_window_no_literal URI_reference s 0 Hnb) in Hok.
+  apply Bool.andb_true_iff in Hok. destruct Hok as [H1 H2].
+  apply PeanoNat.Nat.leb_le in H1. apply PeanoNat.Nat.leb_le in H2. unfold first_dead.
+  apply PeanoNat.Nat.le_antisymm; assumption.
+Qed.
